@@ -361,7 +361,24 @@ func runC11(c *core.Case) {
 	eqConst := func() float64 { return []float64{0, 0, 0, 100, -5, 0.5, 1e9}[r.Intn(7)] }
 	for _, p := range keys {
 		hc := eqConst()
-		objs = append(objs, object.NewQuadkeyAndVerticalID(H, p[0], V, p[1], hc, hc))
+		o := object.NewQuadkeyAndVerticalID(H, p[0], V, p[1], hc, hc)
+		if r.P(0.25) {
+			// the same element reached through the setters of an object that held another key at other zooms before
+			// (setters in random order: every field is simply replaced, whatever the other fields hold at that moment)
+			o = object.NewQuadkeyAndVerticalID(r.Range(1, 31), r.Range(0, 3), r.Range(0, 8), r.Range(-3, 3), 0, 0)
+			set := []func(){func() { o.SetQuadkeyZoom(H) }, func() { o.SetQuadkey(p[0]) }, func() { o.SetVZoom(V) }, func() { o.SetVIndex(p[1]) },
+				func() { o.SetMaxHeight(hc) }, func() { o.SetMinHeight(hc) }}
+			for _, i := range r.Perm(len(set)) {
+				set[i]()
+			}
+			if o.QuadkeyZoom() != H || o.Quadkey() != p[0] || o.VZoom() != V || o.VIndex() != p[1] || o.MaxHeight() != hc || o.MinHeight() != hc {
+				c.Fail("object-setters", nil, "QuadkeyAndVerticalID set to (%d,%d,%d,%d,%v,%v) through its setters reads back (%d,%d,%d,%d,%v,%v)", H, p[0], V, p[1], hc, hc,
+					o.QuadkeyZoom(), o.Quadkey(), o.VZoom(), o.VIndex(), o.MaxHeight(), o.MinHeight())
+				return
+			}
+			c.Tag("element-built-through-setters")
+		}
+		objs = append(objs, o)
 		x, y := ref.UnQuadkey(p[0], H)
 		tiles = append(tiles, ref.ID{H: H, X: x, Y: y, V: V, F: p[1]})
 	}
